@@ -17,12 +17,20 @@
                         numeral / escaped %epp body [1; d; 0]; %epp quote [1; d; 1]
      [2]                gap after "%%"
      [3; r; 0|1]        rule block r: gap after the name / after the colon
+     [3; r; 2]          gap after "->" (Grmtools dialect: blocks that carry an action type);
+                        the blanks between the type and the colon are text [3; r; 3]
      [4; r; p; 0; k]    production p of block r: gap after (spelling of) symbol k
      [4; r; p; 1|2]     gap after "%prec" / after its token (spelling [4; r; p; 1])
      [4; r; p; 3]       gap after the action's closing brace
      [4; r; p; 4]       gap after "%empty" (written iff flag [4; r; p] and no symbols)
      [4; r; p; 5]       gap after the terminator ('|' or ';')
      [4; r; p; 6|7]     blanks after '{' / before '}' of the action
+     [5]                gap after the second "%%" (programs section)
+
+   Declarations of the three dialects: %actiontype (Original only), %implicit_tokens
+   (Eco only), %parse-param, %parse-generics, %expect-unused (all).  For %parse-param the
+   blanks between the name and the colon are text [1; d; 0], the gap after the colon
+   [1; d; 1], the gap after the type [1; d; 2].
 
    Definitions only (executable, extracted by coq/extract/C10ROUND.v);
    well-formedness and statements are in YpRoundSpec.v, proofs in YpRound*.v. *)
@@ -41,7 +49,8 @@ Record aprod := mkAProd {
   ap_prec : option str;          (* %prec token *)
   ap_action : option str }.      (* action text (trimmed) *)
 
-Record arule := mkARule { ar_name : str; ar_prods : list aprod }.
+(* [ar_type]: the action type written after "->" (Grmtools dialect) *)
+Record arule := mkARule { ar_name : str; ar_type : option str; ar_prods : list aprod }.
 
 Inductive adecl :=
 | DStart (n : str)
@@ -50,9 +59,14 @@ Inductive adecl :=
 | DEpp (t : str) (v : str)
 | DAvoid (ts : list str)
 | DExpect (v : N)
-| DExpectRR (v : N).
+| DExpectRR (v : N)
+| DActiontype (t : str)               (* Original dialect only *)
+| DParseParam (n t : str)
+| DParseGenerics (t : str)
+| DExpectUnused (ss : list asym)      (* rule names bare, tokens between quotes *)
+| DImplicit (ts : list str).          (* Eco dialect only *)
 
-Record agram := mkAG { ag_decls : list adecl; ag_rules : list arule }.
+Record agram := mkAG { ag_decls : list adecl; ag_rules : list arule; ag_programs : option str }.
 
 (* the components an abstract grammar consists of *)
 Definition ag_start (ag : agram) : option str :=
@@ -69,6 +83,17 @@ Definition ag_expect (ag : agram) : option N :=
   hd_error (flat_map (fun d => match d with DExpect v => [v] | _ => [] end) (ag_decls ag)).
 Definition ag_expectrr (ag : agram) : option N :=
   hd_error (flat_map (fun d => match d with DExpectRR v => [v] | _ => [] end) (ag_decls ag)).
+
+Definition ag_actiontype (ag : agram) : option str :=
+  hd_error (flat_map (fun d => match d with DActiontype t => [t] | _ => [] end) (ag_decls ag)).
+Definition ag_parse_param (ag : agram) : option (str * str) :=
+  hd_error (flat_map (fun d => match d with DParseParam n t => [(n, t)] | _ => [] end) (ag_decls ag)).
+Definition ag_parse_generics (ag : agram) : option str :=
+  hd_error (flat_map (fun d => match d with DParseGenerics t => [t] | _ => [] end) (ag_decls ag)).
+Definition ag_expect_unused (ag : agram) : list asym :=
+  flat_map (fun d => match d with DExpectUnused ss => ss | _ => [] end) (ag_decls ag).
+Definition ag_implicit (ag : agram) : list str :=
+  flat_map (fun d => match d with DImplicit ts => ts | _ => [] end) (ag_decls ag).
 
 (* ======================================================================== *)
 (*  Layouts                                                                  *)
@@ -97,9 +122,9 @@ Definition play_of (l : layout) (r p : nat) : play :=
          (l_gap l [4; r; p; 5]).
 
 (* the choices inside one rule block *)
-Record rlay := mkRlay { rg_name : str; rg_colon : str; r_play : nat -> play }.
+Record rlay := mkRlay { rg_name : str; rg_colon : str; r_play : nat -> play; rg_arrow : str; r_tpad : str }.
 Definition rlay_of (l : layout) (r : nat) : rlay :=
-  mkRlay (l_gap l [3; r; 0]) (l_gap l [3; r; 1]) (play_of l r).
+  mkRlay (l_gap l [3; r; 0]) (l_gap l [3; r; 1]) (play_of l r) (l_gap l [3; r; 2]) (l_txt l [3; r; 3]).
 
 (* the choices inside one declaration *)
 Record dlay := mkDlay { dg : nat -> str; dq : nat -> qstyle; d_txt : str; d_sq : qstyle }.
@@ -131,6 +156,16 @@ Fixpoint print_toks (g : nat -> str) (q : nat -> qstyle) (k : nat) (ts : list st
 Definition kw_assoc (k : assoc) : str :=
   match k with ALeft => kw_left | ARight => kw_right | ANonassoc => kw_nonassoc end.
 
+(* the items of %expect-unused: rule names bare, tokens in the style chosen (a quoted one) *)
+Definition sym_name (s : asym) : str := match s with ARule n | ATok n => n end.
+Definition eu_q (q : nat -> qstyle) (k : nat) (s : asym) : qstyle :=
+  match s with ARule _ => QBare | ATok _ => q k end.
+Fixpoint print_eus (g : nat -> str) (q : nat -> qstyle) (k : nat) (ss : list asym) : str :=
+  match ss with
+  | [] => []
+  | s :: ss' => print_tok (eu_q q k s) (sym_name s) ++ g (S k) ++ print_eus g q (S k) ss'
+  end.
+
 Definition print_decl (dl : dlay) (x : adecl) : str :=
   match x with
   | DStart n => kw_start ++ dg dl 0 ++ n ++ dg dl 1
@@ -141,6 +176,11 @@ Definition print_decl (dl : dlay) (x : adecl) : str :=
   | DAvoid ts => kw_avoid_insert ++ dg dl 0 ++ print_toks (dg dl) (dq dl) 0 ts
   | DExpect _ => kw_expect ++ dg dl 0 ++ d_txt dl ++ dg dl 1
   | DExpectRR _ => kw_expect_rr ++ dg dl 0 ++ d_txt dl ++ dg dl 1
+  | DActiontype t => kw_actiontype ++ dg dl 0 ++ t ++ dg dl 1
+  | DParseParam n t => kw_parse_param ++ dg dl 0 ++ n ++ d_txt dl ++ c_colon :: dg dl 1 ++ t ++ dg dl 2
+  | DParseGenerics t => kw_parse_generics ++ dg dl 0 ++ t ++ dg dl 1
+  | DExpectUnused ss => kw_expect_unused ++ dg dl 0 ++ print_eus (dg dl) (dq dl) 0 ss
+  | DImplicit ts => kw_implicit_tokens ++ dg dl 0 ++ print_toks (dg dl) (dq dl) 0 ts
   end.
 
 Fixpoint print_decls (l : layout) (d : nat) (ds : list adecl) : str :=
@@ -152,7 +192,6 @@ Fixpoint print_decls (l : layout) (d : nat) (ds : list adecl) : str :=
 (* ---- productions ---------------------------------------------------------- *)
 Definition sym_q (pl : play) (k : nat) (s : asym) : qstyle :=
   match s with ARule _ => QBare | ATok _ => pq_sym pl k end.
-Definition sym_name (s : asym) : str := match s with ARule n | ATok n => n end.
 Definition print_sym (pl : play) (k : nat) (s : asym) : str := print_tok (sym_q pl k s) (sym_name s).
 
 Fixpoint print_syms (pl : play) (k : nat) (ss : list asym) : str :=
@@ -189,8 +228,12 @@ Fixpoint print_prods (rl : rlay) (pi : nat) (ps : list aprod) : str :=
       ++ print_prods rl (S pi) ps'
   end.
 
+(* the action type of a block (Grmtools dialect):  -> type  before the colon *)
+Definition print_rtype (rl : rlay) (r : arule) : str :=
+  match ar_type r with Some t => kw_arrow ++ rg_arrow rl ++ t ++ r_tpad rl | None => [] end.
+
 Definition print_rule (rl : rlay) (r : arule) : str :=
-  ar_name r ++ rg_name rl ++ c_colon :: rg_colon rl ++ print_prods rl 0 (ar_prods r).
+  ar_name r ++ rg_name rl ++ print_rtype rl r ++ c_colon :: rg_colon rl ++ print_prods rl 0 (ar_prods r).
 
 Fixpoint print_rules (l : layout) (r : nat) (rs : list arule) : str :=
   match rs with
@@ -198,8 +241,13 @@ Fixpoint print_rules (l : layout) (r : nat) (rs : list arule) : str :=
   | x :: rs' => print_rule (rlay_of l r) x ++ print_rules l (S r) rs'
   end.
 
+(* the programs section: everything after the second "%%" and its layout *)
+Definition print_programs (l : layout) (ag : agram) : str :=
+  match ag_programs ag with Some p => kw_pp ++ l_gap l [5] ++ p | None => [] end.
+
 Definition print (l : layout) (ag : agram) : str :=
-  l_gap l [0] ++ print_decls l 0 (ag_decls ag) ++ kw_pp ++ l_gap l [2] ++ print_rules l 0 (ag_rules ag).
+  l_gap l [0] ++ print_decls l 0 (ag_decls ag) ++ kw_pp ++ l_gap l [2] ++ print_rules l 0 (ag_rules ag)
+  ++ print_programs l ag.
 
 (* ======================================================================== *)
 (*  The AST a printed grammar denotes                                        *)
@@ -228,6 +276,26 @@ Definition ins_avoid (a : gast) (o : str * span) : gast :=
   let a1 := tokens_insert a (fst o) (snd o) in
   upd_avoid a1 (Some (match a_avoid_insert a1 with Some m => m | None => [] end ++ [o])).
 
+(* %implicit_tokens t *)
+Definition ins_implicit (a : gast) (o : str * span) : gast :=
+  let a1 := tokens_insert a (fst o) (snd o) in
+  upd_implicit a1 (Some (match a_implicit_tokens a1 with Some m => m | None => [] end ++ [o])).
+
+(* %expect-unused s *)
+Definition ins_eu (a : gast) (s : symbol) : gast :=
+  upd_expect_unused a (a_expect_unused a ++ [s]).
+(* the symbols of an %expect-unused list printed at [off] *)
+Fixpoint eu_occs (g : nat -> str) (q : nat -> qstyle) (k off : nat) (ss : list asym) : list symbol :=
+  match ss with
+  | [] => []
+  | s :: ss' =>
+      (match s with
+       | ARule n => SRule n (tok_span QBare off n)
+       | ATok n => SToken n (tok_span (q k) off n)
+       end)
+      :: eu_occs g q (S k) (off + byte_len (print_tok (eu_q q k s) (sym_name s)) + byte_len (g (S k))) ss'
+  end.
+
 Definition is_prec (x : adecl) : bool := match x with DPrec _ _ => true | _ => false end.
 
 (* the effect of one declaration printed at [off] on the AST; [lvl] = number of
@@ -254,6 +322,22 @@ Definition decl_eff (dl : dlay) (off lvl : nat) (x : adecl) (a : gast) : gast :=
       let s := o0 + byte_len kw_expect in upd_expect a (Some (v, (s, s + byte_len (d_txt dl))))
   | DExpectRR v =>
       let s := o0 + byte_len kw_expect_rr in upd_expectrr a (Some (v, (s, s + byte_len (d_txt dl))))
+  | DActiontype _ => a
+  | DParseParam n t => upd_parse_param a (Some (n, t))
+  | DParseGenerics t => upd_parse_generics a (Some t)
+  | DExpectUnused ss =>
+      fold_left ins_eu (eu_occs (dg dl) (dq dl) 0 (o0 + byte_len kw_expect_unused) ss) a
+  | DImplicit ts =>
+      let a0 := match a_implicit_tokens a with None => upd_implicit a (Some []) | Some _ => a end in
+      fold_left ins_implicit (tok_occs (dg dl) (dq dl) 0 (o0 + byte_len kw_implicit_tokens) ts) a0
+  end.
+
+(* the effect on the parser's global action type (%actiontype) *)
+Definition decl_gat (dl : dlay) (off : nat) (x : adecl) (g : option (str * span)) : option (str * span) :=
+  match x with
+  | DActiontype t =>
+      let s := off + byte_len kw_actiontype + byte_len (dg dl 0) in Some (t, (s, s + byte_len t))
+  | _ => g
   end.
 
 Fixpoint decls_eff (l : layout) (d off lvl : nat) (ds : list adecl) (a : gast) : gast :=
@@ -264,6 +348,16 @@ Fixpoint decls_eff (l : layout) (d off lvl : nat) (ds : list adecl) (a : gast) :
                 (if is_prec x then S lvl else lvl) ds'
                 (decl_eff (dlay_of l d) off lvl x a)
   end.
+
+Fixpoint decls_gat (l : layout) (d off : nat) (ds : list adecl) (g : option (str * span)) : option (str * span) :=
+  match ds with
+  | [] => g
+  | x :: ds' =>
+      decls_gat l (S d) (off + byte_len (print_decl (dlay_of l d) x)) ds' (decl_gat (dlay_of l d) off x g)
+  end.
+
+Definition actiont_of (g : option (str * span)) : option str :=
+  match g with Some (s, _) => Some s | None => None end.
 
 (* ---- productions ---------------------------------------------------------- *)
 Definition sym_span_at (pl : play) (k off : nat) (s : asym) : span :=
@@ -360,18 +454,22 @@ Fixpoint prods_eff (fa : bool) (rl : rlay) (rn : str) (pi off : nat) (ps : list 
                 (prod_eff fa (r_play rl pi) rn off p a)
   end.
 
-(* a rule block printed at [off]; [at] = the %actiontype in force (none here) *)
+(* a rule block printed at [off]; [at_] = the action type of the block: its own (Grmtools
+   dialect) or the %actiontype in force *)
 Definition rule_head_eff (off : nat) (at_ : option str) (n : str) (a : gast) : gast :=
   let sp := (off, off + byte_len n) in
   let a1 := match a_start a with None => upd_start a (Some (n, sp)) | Some _ => a end in
   match get_rule (a_rules a1) n with None => add_rule a1 n sp at_ | Some _ => a1 end.
 
 Definition rule_body_off (rl : rlay) (off : nat) (r : arule) : nat :=
-  off + byte_len (ar_name r) + byte_len (rg_name rl) + 1 + byte_len (rg_colon rl).
+  off + byte_len (ar_name r) + byte_len (rg_name rl) + byte_len (print_rtype rl r) + 1 + byte_len (rg_colon rl).
+
+Definition rule_at_ (at_ : option str) (r : arule) : option str :=
+  match ar_type r with Some t => Some t | None => at_ end.
 
 Definition rule_eff (fa : bool) (rl : rlay) (off : nat) (at_ : option str) (r : arule) (a : gast) : gast :=
   prods_eff fa rl (ar_name r) 0 (rule_body_off rl off r) (ar_prods r)
-            (rule_head_eff off at_ (ar_name r) a).
+            (rule_head_eff off (rule_at_ at_ r) (ar_name r) a).
 
 Fixpoint rules_eff (fa : bool) (l : layout) (r off : nat) (at_ : option str) (rs : list arule) (a : gast) : gast :=
   match rs with
@@ -386,9 +484,17 @@ Definition decls_off (l : layout) : nat := byte_len (l_gap l [0]).
 Definition rules_off (l : layout) (ag : agram) : nat :=
   decls_off l + byte_len (print_decls l 0 (ag_decls ag)) + byte_len kw_pp + byte_len (l_gap l [2]).
 
+(* the %actiontype the declarations leave in force *)
+Definition gat_of (l : layout) (ag : agram) : option (str * span) :=
+  decls_gat l 0 (decls_off l) (ag_decls ag) None.
+
+Definition programs_eff (ag : agram) (a : gast) : gast :=
+  match ag_programs ag with Some p => upd_programs a (Some p) | None => a end.
+
 Definition ast_of (fa : bool) (l : layout) (ag : agram) : gast :=
-  rules_eff fa l 0 (rules_off l ag) None (ag_rules ag)
-            (decls_eff l 0 (decls_off l) 0 (ag_decls ag) ast_new).
+  programs_eff ag
+    (rules_eff fa l 0 (rules_off l ag) (actiont_of (gat_of l ag)) (ag_rules ag)
+               (decls_eff l 0 (decls_off l) 0 (ag_decls ag) ast_new)).
 
 Definition warnings_of (fa : bool) (l : layout) (ag : agram) : outcome (list (wkind * span)) :=
   warnings (ast_of fa l ag).
